@@ -87,8 +87,12 @@ func (mp MultiPolygon) Centroid() Point {
 				cy += (r[i].Y + r[i+1].Y) *
 					(r[i].X*r[i+1].Y - r[i+1].X*r[i].Y)
 			}
-			cx /= 6 * a
-			cy /= 6 * a
+			// The sums above carry the sign of the ring's winding direction,
+			// so the ring centroid needs the signed area; a (negative for
+			// holes, whatever their winding) is only the weight.
+			sa := signedarea(r)
+			cx /= 6 * sa
+			cy /= 6 * sa
 			A += a
 			xA += cx * a
 			yA += cy * a
